@@ -57,6 +57,51 @@ Theorem C08_hof_best_never_worse : forall k pops pop h rest,
 Proof. exact hof_best_never_worse. Qed.
 Print Assumptions C08_hof_best_never_worse.
 
+(* (1)-(3) at full strength also when individuals whose evaluation FAILED (invalid fitness, C09:
+   never better than anything, every valid fitness is better than it) are shown, at any position
+   of a population: `shown_okv` = one class, the VALID values pairwise identical or separated, one
+   fitness per uid.  Invalid individuals rank last (C08_better_with_invalid), so "the k best" keeps
+   a valid individual in preference to any invalid one. *)
+Theorem C08_hof_inv_with_invalid : forall k pops,
+  1 <= k -> shown_okv (concat pops) ->
+  let a := hof_runs k empty_arch pops in
+  length (keys a) = length (items a) /\
+  keys a = rev (map fitness (items a)) /\
+  StronglySorted (fun x y => f_better x y = false) (keys a) /\
+  length (items a) <= k /\
+  NoDup (map uid (items a)).
+Proof. exact hof_inv_v. Qed.
+Print Assumptions C08_hof_inv_with_invalid.
+
+Theorem C08_hof_k_best_with_invalid : forall k pops,
+  1 <= k -> shown_okv (concat pops) ->
+  let seen := concat pops in
+  let a := hof_runs k empty_arch pops in
+  incl (items a) seen /\
+  length (items a) = Nat.min k (length (nodup Nat.eq_dec (map uid seen))) /\
+  StronglySorted (fun x y => f_better (fitness y) (fitness x) = false) (items a) /\
+  (forall s, In s seen -> (forall m, In m (items a) -> uid m <> uid s) ->
+             forall m, In m (items a) -> f_better (fitness s) (fitness m) = false).
+Proof. exact hof_k_best_v. Qed.
+Print Assumptions C08_hof_k_best_with_invalid.
+
+Theorem C08_hof_best_never_worse_with_invalid : forall k pops pop h rest,
+  1 <= k -> shown_okv (concat (pops ++ [pop])) ->
+  items (hof_runs k empty_arch pops) = h :: rest ->
+  exists h' rest', items (hof_runs k empty_arch (pops ++ [pop])) = h' :: rest' /\
+                   f_better (fitness h) (fitness h') = false.
+Proof. exact hof_best_never_worse_v. Qed.
+Print Assumptions C08_hof_best_never_worse_with_invalid.
+
+Theorem C08_better_with_invalid : forall seen s t,
+  shown_okv seen -> In s seen -> In t seen ->
+  (valid (fitness s) = false -> f_better (fitness s) (fitness t) = false) /\
+  (valid (fitness s) = true -> valid (fitness t) = false -> f_better (fitness s) (fitness t) = true) /\
+  (valid (fitness s) = true -> valid (fitness t) = true ->
+   f_better (fitness s) (fitness t) = lex_lt_b (vals (fitness s)) (vals (fitness t))).
+Proof. exact better_with_invalid. Qed.
+Print Assumptions C08_better_with_invalid.
+
 (* what `f_better` (the code's `>` on fitness objects) is on the individuals shown:
    lexicographic minimisation of the value vectors *)
 Theorem C08_better_is_lexicographic : forall seen s t,
@@ -223,9 +268,17 @@ Print Assumptions C08_hof_improved_iff_changed.
 (* ------------------------------------------------------------------------------------ *)
 (* the oracle evaluated on observed behaviour (Keeper.holds_b) decides what it says      *)
 (* ------------------------------------------------------------------------------------ *)
-Theorem C08_oracle_sort : forall n l,
-  same_len n l -> Permutation.Permutation (lex_sort l) l /\ best_first (lex_sort l).
-Proof. intros n l H. split; [apply lex_sort_perm|apply (lex_sort_sorted n), H]. Qed.
+Theorem C08_oracle_sort : forall l,
+  Permutation.Permutation (lex_sort l) l /\ best_first (lex_sort l) /\
+  (forall v w x, row_better v w = true -> row_better w x = true -> row_better v x = true) /\
+  (forall v w, row_better v w = true -> row_better w v = false) /\
+  (forall v, row_better [] v = false /\ (v <> [] -> row_better v [] = true)).
+Proof.
+  intros l. repeat split; try apply lex_sort_perm; try apply lex_sort_sorted.
+  - exact row_better_trans.
+  - exact row_better_asym.
+  - apply row_better_invalid_last.
+Qed.
 Print Assumptions C08_oracle_sort.
 
 Theorem C08_oracle_nondominated : forall vs v,
@@ -303,3 +356,27 @@ Proof.
   repeat (destruct Hs as [<-|Hs]; [repeat (destruct Ht as [<-|Ht]; [try reflexivity; discriminate E|]); destruct Ht|]).
   destruct Hs.
 Qed.
+
+(* a failed evaluation first in the population shown to an empty hall of fame (the shape of seeded
+   change C08-G), a second failed one later: the valid individuals are kept, invalid ones last *)
+Definition ex_bad := {| uid := 7; fitness := Single None []; gclass := 0; ngen := Some 0 |}.
+Definition ex_bad2 := {| uid := 8; fitness := Single None []; gclass := 0; ngen := Some 1 |}.
+Definition ex_pops_invalid := [[ex_bad; ex_b; ex_a]; [ex_bad2; ex_bad]; [ex_d]].
+
+Example shown_okv_satisfiable : shown_okv (concat ex_pops_invalid).
+Proof.
+  split.
+  - intros f g Hf Hg. simpl in Hf, Hg.
+    repeat (destruct Hf as [<-|Hf]; [repeat (destruct Hg as [<-|Hg]; [split; [reflexivity|intros; try discriminate; reflexivity]|]); destruct Hg|]).
+    destruct Hf.
+  - intros s t Hs Ht E. simpl in Hs, Ht.
+    repeat (destruct Hs as [<-|Hs]; [repeat (destruct Ht as [<-|Ht]; [try reflexivity; discriminate E|]); destruct Ht|]).
+    destruct Hs.
+Qed.
+
+Example hof_history_with_invalid :
+  map uid (items (hof_runs 1 empty_arch (firstn 1 ex_pops_invalid))) = [2] /\
+  map uid (items (hof_runs 3 empty_arch (firstn 2 ex_pops_invalid))) = [2; 1; 7] /\
+  map uid (items (hof_runs 4 empty_arch (firstn 2 ex_pops_invalid))) = [2; 1; 7; 8] /\
+  map uid (items (hof_runs 3 empty_arch ex_pops_invalid)) = [4; 2; 1].
+Proof. vm_compute. repeat split. Qed.
